@@ -112,6 +112,31 @@ def geometry_scan(n_max, rates=(0.03, 0.05, 0.01), near=1e-6):
     return None, scanned, calls
 
 
+def noise_touch(obj, i):
+    """one operation on a SECOND, independent structure of the same class, performed between the steps of the
+    history under test: objects share nothing, so whatever happens to this one must not show in the other
+    (a class-level or module-level buffer, a mutable default argument, a cache keyed too coarsely would)"""
+    if obj is None:
+        return
+    try:
+        if i % 5 == 4 and hasattr(obj, "remove"):
+            obj.remove("noise-%d" % (i - 1))
+        elif i % 7 == 6 and hasattr(obj, "pop"):
+            obj.pop()
+        elif i % 11 == 10 and hasattr(obj, "push"):
+            obj.push()
+        elif i % 13 == 12 and hasattr(obj, "clear"):
+            obj.clear()
+        else:
+            obj.add("noise-%d" % i)
+        if i % 3 == 0:
+            obj.check("noise-%d" % i)
+        if i % 9 == 8:
+            bytes(obj)
+    except Exception:  # noqa: BLE001 - the twin may legitimately refuse (full, unsupported, single-filter pop)
+        pass
+
+
 def sparse_result(mk, tries=300, tag=""):
     """A Bloom / counting-Bloom filter reached through the public API only whose elements_added is 0 although
     cells are set: the intersection of two single-key filters that share a position (intersection and union
